@@ -13,6 +13,9 @@ A configuration `cfg` is a dict:
   greedy: additive: None|True|False
   phragmen: loads: [Fraction]|None
   maxw: algo: pd | ilp
+  opt-in (mes, greedy, maxw) — the caller hands over its OWN satisfaction profile:
+    sp_sat: measure the satisfaction profile is built with; sp_voters: indices of the voters it holds (None = all);
+    sp_only: True = sat_class is not passed at all, otherwise sat_class=cfg["sat"] is passed alongside
 """
 from __future__ import annotations
 
@@ -131,6 +134,23 @@ def model_line(built: Built, cfg) -> str:
     return " ".join(t for t in toks if t)
 
 
+def sat_kwargs(built: Built, cfg):
+    """the satisfaction arguments of one call.  Default: sat_class=cfg["sat"].  With cfg["sp_sat"] the caller builds a
+    satisfaction profile itself (measure sp_sat, voters sp_voters of the case — possibly none of them) and passes it as
+    sat_profile=, with sat_class=cfg["sat"] alongside unless cfg["sp_only"]"""
+    if not cfg.get("sp_sat"):
+        return dict(sat_class=core.sat_class(cfg["sat"]))
+    case = built.case
+    voters = cfg.get("sp_voters")
+    prof = built.prof
+    if voters is not None:
+        prof = core.build_profile(case, built.inst, built.projs, multi=built.multi, ballots=[case.ballots[i] for i in voters])
+    kw = dict(sat_profile=prof.as_sat_profile(core.sat_class(cfg["sp_sat"])))
+    if not cfg.get("sp_only"):
+        kw["sat_class"] = core.sat_class(cfg["sat"])
+    return kw
+
+
 def call_rule(built: Built, cfg):
     """run the real library; returns the raw return value (BudgetAllocation or list of them)"""
     import pabutools.rules as R
@@ -147,7 +167,7 @@ def call_rule(built: Built, cfg):
     res = cfg.get("res", True)
     rule = cfg["rule"]
     if rule == "mes":
-        kw = dict(sat_class=core.sat_class(cfg["sat"]), tie_breaking=tie, resoluteness=res)
+        kw = dict(sat_kwargs(built, cfg), tie_breaking=tie, resoluteness=res)
         if pass_init:
             kw["initial_budget_allocation"] = init
         if cfg.get("binary") is not None:
@@ -158,7 +178,7 @@ def call_rule(built: Built, cfg):
             kw["analytics"] = True
         return R.method_of_equal_shares(inst, prof, **kw)
     if rule == "greedy":
-        kw = dict(sat_class=core.sat_class(cfg["sat"]), tie_breaking=tie, resoluteness=res)
+        kw = dict(sat_kwargs(built, cfg), tie_breaking=tie, resoluteness=res)
         if pass_init:
             kw["initial_budget_allocation"] = init
         if cfg.get("additive") is not None:
@@ -173,7 +193,7 @@ def call_rule(built: Built, cfg):
         return R.sequential_phragmen(inst, prof, **kw)
     if rule == "maxw":
         algo = {"pd": R.MaxAddUtilWelfareAlgo.PRIMAL_DUAL, "ilp": R.MaxAddUtilWelfareAlgo.ILP_SOLVER}[cfg.get("algo", "pd")]
-        kw = dict(sat_class=core.sat_class(cfg["sat"]), resoluteness=res, inner_algo=algo)
+        kw = dict(sat_kwargs(built, cfg), resoluteness=res, inner_algo=algo)
         if pass_init:
             kw["initial_budget_allocation"] = init
         return R.max_additive_utilitarian_welfare(inst, prof, **kw)
